@@ -150,4 +150,32 @@ CHECKS = {
           "F-C04-1 are attributed only in runs that start on a re-opened shard (the reload window) or in the directed reproduction.",
   "technique": "TLA+ spec (View.tla) model-checked by TLC; client-visible histories recorded from a concurrent driver on the real shard validated by TLC (TraceView.tla)",
  },
+ "C10": {
+  "text": "TLC exhaustively checks SeriesIndex.tla: (a) the life cycle of the series index (Create = lookup-before-create over cache and "
+          "item store, IndexFlush, ClearCache, Close, Reopen with the (logical clock, sequence) id generator) for KeyIdBijection, "
+          "NamespacesConsistent (key->id, id->key and tag->ids item families), CacheSound, ClosedClean; (b) the predicate set algebra over "
+          "the flushed tag->ids items (=, !=, =~, !~ with the rules for empty values and absent tags, AND/OR/parentheses) against brute-force "
+          "evaluation with UNANCHORED regular expressions and absent-tag-as-empty-string (SearchExact, ListingsExact) for every set of up to "
+          "2-3 series over the value alphabet, every leaf, every depth-2 tree over 12 core leaves and every parser-producible depth-3 tree "
+          "over 4 leaves. Regular expressions are sequences of items (^ $ literal class [0-9] alternation .* .+ (s)? c*) with a matcher "
+          "defined in the specification; the family has one member per fast path of tag_filters.go. Behaviours (every BFS path of a small "
+          "configuration, three scripted rich series sets queried with all leaves and design trees, seeded simulation with random trees to "
+          "depth 3) are replayed into a real tsi merge-set index of a shard opened through Engine.Open/Assign: series are created by "
+          "writing points through the line-protocol parser and WriteRows (CreateIndexIfNotExists); after every action "
+          "GetSeriesIdBySeriesKey of every known key must return its one id; every search is compared on six production entry points "
+          "(searchTSIDs ids, SearchSeriesKeys, SearchSeriesWithOpts with RewriteRegexConditions applied as the compiler does, "
+          "Engine.SeriesKeys, Engine.TagKeys, Engine.TagValues) with the specification's set.",
+  "design_ref": "DESIGN.md section 5 C10",
+  "note": "Bounds of the cfg files (2 measurements, 2 tag keys, <= 9 tag values incl. the empty one and values that are prefixes of each "
+          "other, 23 regular expressions, <= 6 series, <= 5 per measurement so that the cost-based pruning of seriesByTagFilters is not "
+          "taken); characters, tag keys and measurement names drawn per case from the seed (commas, equals signs, spaces, quotes, "
+          "backslashes, regex metacharacters, unicode, the index's separator bytes \\x01/\\x02; \\x00 cannot be written in InfluxQL); the "
+          "index is flushed before a search (allowed lag); tag arrays, column store, series deletion (C13) and concurrent writers (C04) "
+          "are not covered. Seven open findings (F-C10-1 anchored matching of non-literal regexes, F-C10-2 anchors of ^lit$ dropped on the "
+          "SHOW path, F-C10-3 empty-accepting regex treated as match-all, F-C10-4 nil operand under AND on the SHOW path, F-C10-5 matching "
+          "on escaped bytes, F-C10-6 lookup-before-create misses unflushed items after a cache drop, F-C10-7 SHOW TAG KEYS splits the "
+          "unescaped series key) are re-observed and attributed only when the real result equals the prediction of the specification's "
+          "deviation model (computed per subset of deviation classes present in the predicate) exactly.",
+  "technique": "TLA+ spec (SeriesIndex.tla) model-checked by TLC; TLC-generated behaviours replayed into the real tsi merge-set index with comparison of the id map after every action and of every search on all production entry points",
+ },
 }
